@@ -55,6 +55,21 @@ def verdict(c, cls, halg, by, res, allowed, env=None):
     return None
 
 
+def jwk_object_verdict(c, vv, line):
+    """clause (e) on the embedded JWK OBJECT (independent of the model): a jwk with secret material (`d` member, or an octet key)
+    is never accepted; the DAG parser refuses every one of them at its type switch, dpop's probe every RSA / EC / octet / Ed25519 one"""
+    test, _, res = line.partition(" ")
+    secret = bool(vv.get("jhasd")) or vv.get("jkty") == "oct"
+    if not secret:
+        return None
+    if res == "accept":
+        return ("embedded-secret-jwk", f"a token whose jwk header holds secret key material (kty {vv.get('jkty')}, crv {vv.get('jcrv')!r}) was accepted")
+    if test == "passed" and (c == "dagtxj" or vv.get("jkty") in ("EC", "RSA", "oct") or vv.get("jcrv") == "Ed25519"):
+        return ("secret-jwk-not-refused", f"the private-key test let a jwk with secret key material through (kty {vv.get('jkty')}, crv {vv.get('jcrv')!r}); "
+                "the token was rejected only by a later check")
+    return None
+
+
 GO_SPACE = set([9, 10, 11, 12, 13, 32, 0x85, 0xA0, 0x1680, 0x2028, 0x2029, 0x202F, 0x205F, 0x3000] + list(range(0x2000, 0x200B)))
 B64URL = set(b"ABCDEFGHIJKLMNOPQRSTUVWXYZabcdefghijklmnopqrstuvwxyz0123456789-_")
 
@@ -132,7 +147,9 @@ def run(ctx):
                 "fact_dag_framing_consts", "fact_alphabet", "fact_signatureAlgorithm", "rawurl_roundtrip", "encode_is_canonical", "canonical_segment_unique",
                 "canonical_segment_alphabet", "compact_shape", "compact_reference_unique", "compact_reference_unique_ref", "canonical_compact_passes",
                 "json_form_admits_whitespace_variants", "parseTxFraming_pass", "accept_dagTx_bytes", "accepted_dagTx_one_reference", "derived_alg_listed", "derived_alg_fits_nist", "accept_ldProof_derived",
-                "fact_parseJWT", "fact_parseJWS", "fact_dpopParse", "fact_dagTx", "fact_apiToken", "fact_jar_ldproof"]
+                "fact_parseJWT", "fact_parseJWS", "fact_dpopParse", "fact_dagTx", "fact_apiToken", "fact_jar_ldproof",
+                "fact_dpop_private_probes", "dag_refuses_exactly_the_secret_jwks", "dpop_private_test_exact", "dpop_private_test_misses_other_okp_curves",
+                "accept_dpopJ", "accept_dagTxJ"]
     for r in required:
         if not any(t.endswith("Props." + r) for t in thms):
             ctx.oblige("thm-present:" + r, False, "theorem missing or its module does not build")
@@ -168,6 +185,7 @@ def run(ctx):
     distinct = set()
     seen_sig = {}
     accepted_valid = Counter()
+    jwk_tests = {"dpopj": Counter(), "dagtxj": Counter()}
     reenc = Counter()
     total = total_bad = 0
     samples = []
@@ -285,7 +303,11 @@ def run(ctx):
             if cls == "reencoded" and line == "accept":
                 reenc[c] += 1
             halg = op.get("halg", "") if c != "ldproof" else op.get("v", {}).get("keyalg", "")
-            v = verdict(c, cls, halg, op.get("by", ""), line, allowed, op.get("env"))
+            if c in ("dpopj", "dagtxj"):
+                v = jwk_object_verdict(c, op.get("v", {}), line)
+                jwk_tests[c][line] += 1
+            else:
+                v = verdict(c, cls, halg, op.get("by", ""), line, allowed, op.get("env"))
             # DAG transactions are content-addressed by their bytes: what is accepted must be a JSON serialisation or
             # byte-identical to the canonical compact serialisation (verdict computed by the harness's own re-encode-and-compare)
             # JSON-LD: what the node READS must be what was SIGNED. A member that encoding/json reads as another member but that the
@@ -328,6 +350,9 @@ def run(ctx):
     if not ctx.replay:
         for c in ("parsejwt", "parsejws", "dpop", "dagtx", "apitoken", "jar", "vcjwt", "authzv1", "introspect", "ldproof", "vcld", "vcldfold"):
             ctx.oblige(f"non-vacuous:{c}-accepts-its-valid-token(impl)", accepted_valid[c] > 0, str(dict(accepted_valid)))
+        for c in ("dpopj", "dagtxj"):
+            ctx.oblige(f"non-vacuous:{c}-accepts-a-public-jwk-and-refuses-a-private-one(impl)",
+                       jwk_tests[c]["passed accept"] > 0 and jwk_tests[c]["refused reject"] > 0, str(dict(jwk_tests[c])))
         ctx.oblige("non-vacuous:framingtx-accepts-the-canonical-compact-transaction(impl)", accepted_valid["framingtx"] > 0, str(dict(accepted_valid)))
         ctx.cov["json_serialisations_of_a_signed_transaction_accepted"] = accepted_valid["framingtx-json"]
 
